@@ -44,6 +44,7 @@ class State:
         self.trig = {}          # base-angle key -> (cvar, svar)
         self.eager = False      # reduce modulo rules after every product
         self.decider = None     # callable(state, formula) -> list of feasible booleans
+        self.range_oracle = None  # callable(state, x, m) -> True if the hypotheses imply 0 <= x < m
         self.notes = []         # assumptions made on the way (e.g. unproved non-zero divisors)
         self.tokens = {}        # g2o number tokens -> Sym
         self.token_of = {}
@@ -497,6 +498,12 @@ def mod(x, m):
             inf_part = Sym(Poly(dict(t1)))
     key = ("mod", x0.key(), m.key())
     k = st.memo.get(key)
+    if k is None and st.range_oracle is not None and any(st.pc.kinds[v] == "int" for v in x0.n.vars()):
+        # x0 looks like an already wrapped angle: if the hypotheses imply 0 <= x0 < m the result is x0 itself
+        # (x % m == x on that range) -- this makes re-wrapping syntactically idempotent
+        if st.range_oracle(st, x0, m):
+            st.memo[key] = Sym(0)
+            k = st.memo[key]
     if k is None:
         kv = st.fresh("k", "int")
         k = Sym(Poly.var(kv))
